@@ -1157,6 +1157,11 @@ package mcp
 //@   ensures @only-responses-strike-off-requests !typeIs(msg, *jsonrpc2.Response) && calls(deliver) == 1 ==> callArg(deliver, 1, 3).value == nil
 //@   ensures @closed-session-delivers-nothing calls(encode) == 1 && callResult(encode, 1, 1) == nil && at(locked_cmu_1, c.isDone) ==> calls(deliver) == 0 && result != nil
 //@   ensures @delivered-at-most-once calls(deliver) <= 1 && calls(store) <= 1
+// With an event store and a resumable protocol version, whatever is handed to a stream has been stored first - in
+// every reply mode (in application/json mode the standalone stream is still an SSE stream that clients resume) and
+// whether or not an exchange is attached.
+//@   track protocolVersionFromContext as version inline
+//@   ensures @every-message-of-a-resumable-stream-is-stored calls(deliver) == 1 && old(c.eventStore) != nil && calls(version) >= 1 && callResult(version, 1, 0) < protocolVersion20260728 ==> calls(store) == 1
 //@   ensures @same-bytes-stored-and-delivered calls(deliver) == 1 ==> callArg(deliver, 1, 1) == callResult(encode, 1, 0) && (calls(store) == 1 ==> callArg(store, 1, 4) == callResult(encode, 1, 0) && callArg(store, 1, 3) == at(locked_stmu_1, target.id) && callArg(store, 1, 2) == old(c.sessionID))
 //@   ensures @event-id-is-stream-id-and-next-index calls(store) == 1 && calls(deliver) == 1 ==> calls(eventID) == 1 && callArg(eventID, 1, 0) == at(locked_stmu_1, target.id) && callArg(eventID, 1, 1) == at(locked_stmu_1, target.lastIdx) + 1 && callArg(deliver, 1, 2) == callResult(eventID, 1, 0)
 //@   ensures @finished-stream-leaves-the-table calls(deliver) == 1 && callResult(deliver, 1, 0) ==> !at(unlocked_cmu_2, inDom(c.streams, at(locked_cmu_2, target.id)))
